@@ -42,7 +42,8 @@ def gen_cases(tier, seed):
         if variant == "wcvp":
             c["p"] = sc.fl(rng.choice([0.1, 0.5, 0.9, round(rng.uniform(0.05, 0.95), 2)]))
         if c["api"] == "accessor":
-            c["dims"] = rng.choice([["time", "y", "x"], ["y", "x", "time"]])
+            c["dims"] = rng.choice([["time", "y", "x"], ["y", "x", "time"], ["y", "time", "x"]])
+            c["dask"] = rng.random() < 0.3
         add(c)
     # structured family: GCV curves with two competing minima and a hump between them (default grid)
     from .. import families
@@ -100,9 +101,20 @@ def gen_cases(tier, seed):
     return cases
 
 
+def m_majority_equal(trace, clause):
+    """known finding C05-F1: robust mode, more than half of the valid cells equal, some other value present"""
+    if clause != "NotZeroed" or not trace.get("robust"):
+        return False
+    vals = [v for v in trace["y"] if v != trace["nd"] and v not in ("nan", "inf", "-inf")]
+    if not vals:
+        return False
+    top = max(vals.count(v) for v in set(vals))
+    return top * 2 > len(vals) and len(set(vals)) > 1
+
+
 def run(tier, seed):
     cases = gen_cases(tier, seed)
-    rep = c04.run_smooth("C05", tier, seed, cases,
+    rep = c04.run_smooth("C05", tier, seed, cases, matchers={"c05_robust_majority_equal": m_majority_equal}, rule=
                          "series n 5..16 (quick) / ..64 with gaps, sranges of 2..8 / ..40 entries, robust in {F,T}, p or none, kernels and whitswcv; pixels with 0,1,4,5 valid cells; "
                          "robust families: constant, exactly linear, flat with isolated spikes (n 8..40 / ..200), gaps 0..40%, each under two nodata placeholders")
     return rep.finish()
